@@ -1122,35 +1122,28 @@ impl State {
                 self.set_ip(frame.return_to);
             }
             Opcode::Resolve(ref name) => {
+                let late = Opcode::Resolve(name.clone());
                 let e = self
                     .dict_entry(&name)
                     .ok_or_else(|| Xerr::UnknownWord(name.clone()))?;
-                match e {
-                    Entry::Constant(c) => {
-                        let op = self.load_value_opcode(c.clone());
-                        self.backpatch(ip, op)?;
-                        self.fetch_and_run()?;
-                    }
-                    Entry::Variable(a) => {
-                        let op = Opcode::Load(*a);
-                        self.backpatch(ip, op)?;
-                        self.fetch_and_run()?;
-                    }
+                let op = match e {
+                    Entry::Constant(c) => self.load_value_opcode(c.clone()),
+                    Entry::Variable(a) => Opcode::Load(*a),
                     Entry::Function {
                         xf: Xfn::Interp(x), ..
-                    } => {
-                        let op = Opcode::Call(*x);
-                        self.backpatch(ip, op)?;
-                        self.fetch_and_run()?;
-                    }
+                    } => Opcode::Call(*x),
                     Entry::Function {
                         xf: Xfn::Native(x), ..
-                    } => {
-                        let op = Opcode::NativeCall(*x);
-                        self.backpatch(ip, op)?;
-                        self.fetch_and_run()?;
-                    }
+                    } => Opcode::NativeCall(*x),
+                };
+                self.backpatch(ip, op)?;
+                let res = self.fetch_and_run();
+                if !self.nested.is_empty() && ip < self.code.len() {
+                    // a source is still being built: what the name was bound to may be
+                    // rolled back or purged with it, so the word stays late for now
+                    self.backpatch(ip, late)?;
                 }
+                res?;
             }
             Opcode::LoadStr(x) => {
                 let val = Cell::from(x.clone());
